@@ -224,12 +224,18 @@ def headerPart (env : Env) (s : St) (p : List Nat) : St × Bool :=
     ({ s2 with out := s2.out ++ [Frame.headers (headerFields env s2 sc.2 p) endStream] }, endStream)
   else (s, false)
 
-/-- second part of `writeChunk`: DATA and, once the handler is done, the trailers. -/
+/-- `hasNonemptyTrailers` (added by the fix): some declared trailer has a value that `encodeHeaders` will emit. -/
+def hasNonempty (s : St) : Bool :=
+  s.trailers.any fun k => (hget s.hh k).any fun v => validName (lower k) && validValue v
+
+/-- second part of `writeChunk`: DATA and, once the handler is done, the trailers (after the fix: the
+    trailers frame is only attempted when its block is non-empty, otherwise END_STREAM goes on the DATA frame). -/
 def bodyPart (s : St) (p : List Nat) : St :=
   let s := if s.handlerDone then promote s else s
-  let endStream := s.handlerDone && s.trailers.isEmpty
+  let ne := hasNonempty s
+  let endStream := s.handlerDone && !ne
   let s := if p.length > 0 || endStream then { s with out := s.out ++ [Frame.data p endStream] } else s
-  if s.handlerDone && !s.trailers.isEmpty then
+  if s.handlerDone && ne then
     { s with out := emitHeaders s.out (encodeHeaders s.hh s.trailers) true }
   else s
 
